@@ -3,7 +3,7 @@
 One harness run produces a trace of generated histories executed on real fw.Thread objects; runner/Fw replays it on
 the model extracted from coq/Fw/Model.v (correspondence) and evaluates the extracted spec oracle of the property
 on the implementation's observations."""
-import glob, hashlib, os, re
+import glob, hashlib, os, re, sys
 import vlib
 
 ASSUMPTIONS = [
@@ -17,7 +17,7 @@ ASSUMPTIONS = [
     "extraction: ExtrOcamlBasic only; N, positive, nat stay Coq datatypes",
     "1-4 forwarding threads behind the real link-service dispatch; the name hash is abstract in the model (coq/Fw/World.v) and read from the implementation (HashNameToFwThread of every universe name and prefix); go1.26 testing/synctest virtual time",
 ]
-TRUSTED = ["Coq kernel 8.16.1", "Coq extraction + OCaml 4.13.1", "runner/Fw/driver.ml", "harness/fwcore generator and recording faces",
+TRUSTED = ["translators/fw/consts.py (regular expressions over the Go sources; a missing pattern fails the run)", "Coq kernel 8.16.1", "Coq extraction + OCaml 4.13.1", "runner/Fw/driver.ml", "harness/fwcore generator and recording faces",
            "verif hooks fw/fw/zz_verif_fw.go, fw/table/zz_verif_fw.go, fw/face/zz_verif_fw.go, std/utils/priority_queue/zz_verif_fw.go", "go1.26 toolchain (synctest)"]
 
 RULE = ("one evaluation = one generated history (1-4 forwarding threads; setup of 2-6 faces of mixed scope/link type, FIB, strategy choice, CS flags; then 20-45 events: Interests, Data, "
@@ -77,6 +77,12 @@ def shrink(R, exe, prop, ops, sig_prefix, budget=60):
 def run(R, prop, extra_assumptions=()):
     R.assumptions += ASSUMPTIONS + list(extra_assumptions)
     R.coverage["trusted_base"] = TRUSTED
+    # translate: constants of the pipeline (suppression intervals, default lifetimes, sweep limit, token layout) -> coq/Fw/GenConsts.v
+    rc, out = vlib.sh([sys.executable, os.path.join(vlib.VERIF, "translators", "fw", "consts.py"), vlib.REPO,
+                       os.path.join(vlib.COQ, "Fw", "GenConsts.v")], timeout=120)
+    if rc != 0:
+        R.proof_problems.append("translator translators/fw/consts.py failed on the tree: " + out.strip()[-300:])
+    R.coverage["translated"] = "coq/Fw/GenConsts.v from fw/fw/{bestroute,multicast,thread}.go, fw/table/{pit-cs,pit-cs-tree,dead-nonce-list}.go, fw/core/config.go"
     R.prove("Fw")
     if not R.quick:
         R.coqchk("Fw", ["Fw.Props_" + prop])
